@@ -3,7 +3,7 @@
    injected failure at ANY interface call (fault position f : option nat), for EVERY transaction t
    (node sets of any size over any number of stores) and EVERY well-formed pre-commit state d. *)
 From Coq Require Import List ZArith NArith Bool.
-From SopVerif Require Import Proto ProtoProofs.
+From SopVerif Require Import Proto ProtoProofs ProtoSuccess Corr.Proto.
 Import ListNotations.
 Local Open Scope N_scope.
 
@@ -17,3 +17,39 @@ Theorem C01_failed_commit_changes_nothing_visible :
     /\ (In (active h0) (blobs d) -> In (active h0) (blobs d')).
 Proof. exact failed_commit_preserves_view. Qed.
 Print Assumptions C01_failed_commit_changes_nothing_visible.
+
+(* A consistent transaction with no failure commits ... *)
+Theorem C01_commit_succeeds :
+  forall d t, SW d t -> exists d' tr, run t d None = (Committed, d', tr).
+Proof. exact commit_success_outcome. Qed.
+Print Assumptions C01_commit_succeeds.
+
+(* ... and then ALL of its changes are visible: every updated node resolves to its new content (version + 1),
+   every removed node is gone, every new node resolves to its blob, every other node is untouched, the logs are
+   gone and every store's count moved by exactly its delta. *)
+Theorem C01_committed_changes_all_visible :
+  forall d t d' tr, SW d t -> run t d None = (Committed, d', tr) ->
+  (forall l v p, In (l, v, p) (updated t) ->
+     resolve d' l = Some p /\ (exists h, lookup (reg d') l = Some h /\ ver h = (v + 1)%Z) /\ In p (blobs d'))
+  /\ (forall l v, In (l, v) (removed t) -> lookup (reg d') l = None)
+  /\ (forall l, In l (roots t ++ added t) -> resolve d' l = Some l /\ In l (blobs d'))
+  /\ (forall l, ~ In l (roots t) -> ~ In l (map (fun x => fst (fst x)) (updated t)) ->
+                ~ In l (map fst (removed t)) -> ~ In l (added t) -> lookup (reg d') l = lookup (reg d) l)
+  /\ tlog d' = false /\ plog d' = None
+  /\ (forall s, count_of d' s = (count_of d s + delta_of (deltas t) s)%Z).
+Proof. exact commit_success_view. Qed.
+Print Assumptions C01_committed_changes_all_visible.
+
+(* the counts are also untouched by a commit that does not succeed, wherever the failure is injected *)
+Theorem C01_failed_commit_keeps_counts :
+  forall t d f o d' tr',
+  (tracked t = true \/ forall s, delta_of (deltas t) s = 0%Z) ->
+  (forall s, delta_of (rb_stores t) s = (- delta_of (deltas t) s)%Z) ->
+  run t d f = (o, d', tr') -> o <> Committed -> forall s, count_of d' s = count_of d s.
+Proof. exact failed_commit_preserves_counts. Qed.
+Print Assumptions C01_failed_commit_keeps_counts.
+
+(* non-vacuity: a transaction with an updated, a removed and an added node, a new root, a value blob and two
+   count deltas meets the hypotheses, and its run is computed *)
+Example C01_nonvacuous : SW d_ex t_ex.
+Proof. exact SW_nonvacuous. Qed.
